@@ -85,6 +85,12 @@ MC.update({
             {"Configs": "c15_Configs", "Requests": "c15_Requests"}),
     "c15t": ({"MaxReq": "3", "MaxDie": "0", "ReqUntil": "2", "MaxNow": "6", "MaxPid": "6"},
              {"Configs": "c15_Configs", "Requests": "c15_Requests"}),
+    # random walks (tlc -simulate) through a model far too big to exhaust: 4 requests of any kind, 3 deaths with any
+    # status, an external kill, a fork, a daemon signal, 2 s of model time; third element = extra TLC arguments
+    "deep": ({"MaxReq": "4", "MaxDie": "3", "MaxExt": "1", "MaxFork": "1", "MaxSig": "1", "ReqUntil": "12", "DieUntil": "14",
+              "MaxNow": "20", "MaxPid": "9", "MaxFrames": "24"},
+             {"Configs": "deep_Configs", "Requests": "deep_Requests", "DieStatuses": "st_three"},
+             ["-simulate", "num=%(num)d", "-depth", "400"]),
     # on_demand: socket events (arrival, acceptance, arrival), one request, one death
     "c02od": ({"MaxSock": "3", "MaxReq": "1", "MaxDie": "1", "ReqUntil": "6", "DieUntil": "7", "MaxNow": "10", "MaxPid": "6"},
               {"Configs": "c02od_Configs", "Requests": "c02od_Requests"}),
@@ -96,33 +102,33 @@ MC.update({
 })
 
 PROPS = {
-    "C01": {"mc_quick": ["c01"], "mc_thorough": ["c01", "c01_deep", "c12q"],
+    "C01": {"mc_quick": ["c01"], "mc_thorough": ["c01", "c01_deep", "c12q", "deep"],
             "profiles": {"default": (100, 2000), "count": (100, 3000)}, "conf": {"conf_full": (60, 800)}},
-    "C02": {"mc_quick": ["c02q", "c02od"], "mc_thorough": ["c02", "c02od", "c02_deep"],
+    "C02": {"mc_quick": ["c02q", "c02od"], "mc_thorough": ["c02", "c02od", "c02_deep", "deep"],
             "profiles": {"default": (80, 2000), "stop": (120, 3000), "ondemand": (50, 1200)}, "conf": {"conf_full": (40, 600), "conf_pat": (30, 400), "conf_od": (20, 300)}},
-    "C03": {"mc_quick": ["c03q"], "mc_thorough": ["c03"],
+    "C03": {"mc_quick": ["c03q"], "mc_thorough": ["c03", "deep"],
             "profiles": {"default": (60, 1500), "term": (140, 3500)}, "conf": {"conf_full": (40, 600), "conf_kids": (30, 400)}},
-    "C04": {"mc_quick": ["c04"], "mc_thorough": ["c04", "c02"],
+    "C04": {"mc_quick": ["c04"], "mc_thorough": ["c04", "c02", "deep"],
             "profiles": {"default": (80, 2000), "acct": (120, 3000)}, "conf": {"conf_full": (60, 800)}},
-    "C05": {"mc_quick": ["c05q"], "mc_thorough": ["c05"],
+    "C05": {"mc_quick": ["c05q"], "mc_thorough": ["c05", "deep"],
             "profiles": {"default": (80, 2000), "overlap": (120, 3000), "ondemand": (40, 1000)}, "conf": {"conf_full": (60, 800)}},
-    "C09": {"mc_quick": ["c09q"], "mc_thorough": ["c09q", "c09t"],
+    "C09": {"mc_quick": ["c09q"], "mc_thorough": ["c09q", "c09t", "deep"],
             "profiles": {"default": (80, 2000), "events": (120, 3000), "ondemand": (40, 1000)}, "conf": {"conf_full": (60, 800)}},
-    "C10": {"mc_quick": ["c10"], "mc_thorough": ["c10", "c02od", "c05"],
+    "C10": {"mc_quick": ["c10"], "mc_thorough": ["c10", "c02od", "c05", "deep"],
             "profiles": {"default": (80, 2000), "excl": (120, 3000), "ondemand": (40, 1000)}, "conf": {"conf_full": (40, 600), "conf_sig": (30, 400)}},
-    "C14": {"mc_quick": ["c14"], "mc_thorough": ["c14", "c04"],
+    "C14": {"mc_quick": ["c14"], "mc_thorough": ["c14", "c04", "deep"],
             "profiles": {"hooks": (200, 5000)}, "conf": {"conf_full": (60, 800)}},
-    "C11": {"mc_quick": ["c10", "c15"], "mc_thorough": ["c10", "c15t", "c05"],
+    "C11": {"mc_quick": ["c10", "c15"], "mc_thorough": ["c10", "c15t", "c05", "deep"],
             "profiles": {"refusal": (250, 6000)}, "conf": {"conf_dir": (40, 500)}},
-    "C13": {"mc_quick": ["c01"], "mc_thorough": ["c01", "c01_deep"],
+    "C13": {"mc_quick": ["c01"], "mc_thorough": ["c01", "c01_deep", "deep"],
             "profiles": {"default": (80, 2000), "count": (120, 3000)}, "conf": {"conf_full": (60, 800)}},
-    "C15": {"mc_quick": ["c15", "c12q"], "mc_thorough": ["c15", "c15t", "c12q", "c12"],
+    "C15": {"mc_quick": ["c15", "c12q"], "mc_thorough": ["c15", "c15t", "c12q", "c12", "deep"],
             "profiles": {"directory": (200, 5000)}, "conf": {"conf_dir": (80, 1000)}},
-    "C08": {"mc_quick": ["c08q"], "mc_thorough": ["c08"],
+    "C08": {"mc_quick": ["c08q"], "mc_thorough": ["c08", "deep"],
             "profiles": {"shutdown": (200, 5000)}, "conf": {"conf_sig": (60, 800)}},
-    "C18": {"mc_quick": ["c18"], "mc_thorough": ["c18", "c03"],
+    "C18": {"mc_quick": ["c18"], "mc_thorough": ["c18", "c03", "deep"],
             "profiles": {"signals": (200, 5000)}, "conf": {"conf_full": (30, 500), "conf_kids": (40, 600)}},
-    "C19": {"mc_quick": ["c19q"], "mc_thorough": ["c19"],
+    "C19": {"mc_quick": ["c19q"], "mc_thorough": ["c19", "deep"],
             "profiles": {"boot": (200, 5000)}, "conf": {"conf_full": (30, 400), "conf_pat": (40, 600)}},
 }
 
@@ -131,7 +137,7 @@ def cfg_text(mcname, prop):
     consts = dict(BASE_CONST)
     consts.update(devs.devs())
     subst = dict(BASE_SUBST)
-    c, s = MC[mcname]
+    c, s = MC[mcname][:2]
     consts.update(c)
     subst.update(s)
     lines = ["CONSTANTS"]
@@ -153,13 +159,27 @@ def model_check(prop, names, scratch, verdict, timeout):
         cfg = os.path.join(scratch, "mc_%s_%s.cfg" % (name, prop))
         with open(cfg, "w") as fh:
             fh.write(cfg_text(name, prop))
-        r = tlcrun.run_tlc("MC_core.tla", cfg, scratch, workers=16, timeout=timeout, heap="12g")
+        extra = list(MC[name][2]) if len(MC[name]) > 2 else []
+        sim = bool(extra)
+        if sim:      # random walks: as many as fit into a fixed share of the budget
+            extra = [a % {"num": 10 ** 9} for a in extra]
+        r = tlcrun.run_tlc("MC_core.tla", cfg, scratch, workers=16, timeout=(min(timeout, 120 if timeout <= 600 else 900)
+                                                                              if sim else timeout),
+                           heap="12g", extra_args=extra)
         st = tlcrun.parse_stats(r["out"])
-        done = "Model checking completed. No error has been found." in r["out"]
+        if sim:
+            m = re.findall(r"Progress: (\d[\d,]*) states checked, (\d[\d,]*) traces generated", r["out"])
+            if m:
+                st["generated"] = int(m[-1][0].replace(",", ""))
+                st["traces"] = int(m[-1][1].replace(",", ""))
+        done = "Model checking completed. No error has been found." in r["out"] or (
+            sim and r.get("timed_out") and "Error:" not in r["out"] and st["generated"] > 0)
         tot["states"] += st["distinct"]
         tot["transitions"] += st["generated"]
         tot["configs"].append({"name": name, "distinct": st["distinct"], "generated": st["generated"],
-                               "depth": st["depth"], "complete": done, "wall_s": round(r["wall"], 1)})
+                               "depth": st["depth"], "complete": done and not sim, "wall_s": round(r["wall"], 1)})
+        if sim:
+            tot["configs"][-1].update({"mode": "simulate (random walks, depth <= 400)", "traces": st.get("traces", 0)})
         if "is violated" in r["out"]:
             m = re.search(r"Invariant (\w+) is violated", r["out"])
             verdict.violation("model counterexample: %s violated in Core configuration %s" % (
